@@ -593,6 +593,22 @@ fn collect_error_factories<'a>(error_factories: &mut Vec<ErrorFactory<'a>>, term
 // Flip the associativity of applications from right to left.
 #[allow(clippy::too_many_lines)]
 fn reassociate_applications<'a>(acc: Option<Term<'a>>, term: &Term<'a>) -> Term<'a> {
+    // A parenthesized term is a single operand, no matter what it contains. Reassociate it on its
+    // own rather than folding the accumulator into it.
+    if term.group
+        && let Some(acc) = acc
+    {
+        return Term {
+            source_range: span(acc.source_range, term.source_range),
+            group: true,
+            variant: Variant::Application(
+                Rc::new(acc),
+                Rc::new(reassociate_applications(None, term)),
+            ),
+            errors: vec![],
+        };
+    }
+
     // In every case except the application case, if we have a value for the accumulator, we want
     // to construct an application with the accumulator as the applicand and the reduced term as
     // the argument. In the application case, we build up the accumulator.
@@ -818,6 +834,24 @@ fn reassociate_products_and_quotients<'a>(
     acc: Option<(Term<'a>, ProductOrQuotient)>,
     term: &Term<'a>,
 ) -> Term<'a> {
+    // A parenthesized term is a single operand, no matter what it contains. Reassociate it on its
+    // own rather than folding the accumulator into it.
+    if term.group
+        && let Some((acc, operator)) = acc
+    {
+        let reduced = Rc::new(reassociate_products_and_quotients(None, term));
+
+        return Term {
+            source_range: span(acc.source_range, term.source_range),
+            group: true,
+            variant: match operator {
+                ProductOrQuotient::Product => Variant::Product(Rc::new(acc), reduced),
+                ProductOrQuotient::Quotient => Variant::Quotient(Rc::new(acc), reduced),
+            },
+            errors: vec![],
+        };
+    }
+
     // In every case except the product and quotient cases, if we have a value for the accumulator,
     // we want to construct a product or quotient with the accumulator as the left subterm and the
     // reduced term as the right subterm. In the product and quotient cases, we build up the
@@ -1098,6 +1132,24 @@ fn reassociate_sums_and_differences<'a>(
     acc: Option<(Term<'a>, SumOrDifference)>,
     term: &Term<'a>,
 ) -> Term<'a> {
+    // A parenthesized term is a single operand, no matter what it contains. Reassociate it on its
+    // own rather than folding the accumulator into it.
+    if term.group
+        && let Some((acc, operator)) = acc
+    {
+        let reduced = Rc::new(reassociate_sums_and_differences(None, term));
+
+        return Term {
+            source_range: span(acc.source_range, term.source_range),
+            group: true,
+            variant: match operator {
+                SumOrDifference::Sum => Variant::Sum(Rc::new(acc), reduced),
+                SumOrDifference::Difference => Variant::Difference(Rc::new(acc), reduced),
+            },
+            errors: vec![],
+        };
+    }
+
     // In every case except the sum and difference cases, if we have a value for the accumulator,
     // we want to construct a sum or difference with the accumulator as the left subterm and the
     // reduced term as the right subterm. In the sum and difference cases, we build up the
